@@ -88,7 +88,7 @@ impl HubClient {
         expected: Option<Hash>,
         local: &Path,
         hash: Hash,
-    ) -> std::io::Result<bool> {
+    ) -> std::io::Result<PutOutcome> {
         let len = std::fs::metadata(local)?.len();
         self.send(&Request::Put {
             path: rel.to_string(),
@@ -101,7 +101,11 @@ impl HubClient {
         std::io::copy(&mut f, &mut self.w)?;
         self.w.flush()?;
         match self.recv()? {
-            Response::PutResult { committed, .. } => Ok(committed),
+            Response::PutResult { committed: true, .. } => Ok(PutOutcome::Committed),
+            Response::PutResult { .. } => Ok(PutOutcome::Conflict),
+            // The hub could not store this one file (its path is a directory there,
+            // ...). The reply came in step, so the session is still usable.
+            Response::Error(msg) => Ok(PutOutcome::Refused(msg)),
             other => Err(std::io::Error::new(
                 std::io::ErrorKind::InvalidData,
                 format!("expected PutResult, got {other:?}"),
@@ -114,6 +118,15 @@ impl HubClient {
         let _ = self.w.flush();
         let _ = self.child.wait();
     }
+}
+
+/// What the hub did with one `Put`.
+pub enum PutOutcome {
+    Committed,
+    /// CAS lost: the hub kept a conflict-copy.
+    Conflict,
+    /// The hub answered with an error for this path; nothing was stored.
+    Refused(String),
 }
 
 fn broken() -> std::io::Error {
@@ -138,7 +151,7 @@ pub fn hub_sync(local_root: &Path, target: &str) -> Result<(), Box<dyn std::erro
         .into());
     }
 
-    let (mut sent, mut skipped, mut conflicts) = (0u64, 0u64, 0u64);
+    let (mut sent, mut skipped, mut conflicts, mut failed) = (0u64, 0u64, 0u64, 0u64);
     for (rel, fp) in &local {
         let rel_s = rel.to_string_lossy().into_owned();
         let expected = hub.get(&rel_s).map(|f| f.blake3);
@@ -146,17 +159,25 @@ pub fn hub_sync(local_root: &Path, target: &str) -> Result<(), Box<dyn std::erro
             skipped += 1;
             continue;
         }
-        let committed = client.put(&rel_s, expected, &local_root.join(rel), fp.blake3)?;
-        if committed {
-            sent += 1;
-        } else {
-            conflicts += 1;
-            eprintln!("  CAS conflict (hub changed under us): {rel_s} — hub kept a conflict-copy");
+        match client.put(&rel_s, expected, &local_root.join(rel), fp.blake3)? {
+            PutOutcome::Committed => sent += 1,
+            PutOutcome::Conflict => {
+                conflicts += 1;
+                eprintln!("  CAS conflict (hub changed under us): {rel_s} — hub kept a conflict-copy");
+            }
+            // One file the hub cannot store must not keep the rest of the tree
+            // from being sent: report it, go on, and fail the run at the end.
+            PutOutcome::Refused(msg) => {
+                failed += 1;
+                eprintln!("  FAILED {rel_s}: {msg}");
+            }
         }
     }
     client.bye();
     println!("Hub push complete: {sent} sent, {skipped} unchanged, {conflicts} conflict(s).");
-    if conflicts == 0 {
+    if failed > 0 {
+        Err(format!("{failed} file(s) could not be stored on the hub").into())
+    } else if conflicts == 0 {
         Ok(())
     } else {
         Err(format!("{conflicts} CAS conflict(s) — re-run to reconcile").into())
